@@ -30,6 +30,8 @@ type c13member struct {
 	closed                 bool // Start returned
 	retN                   int
 	ackPos                 map[int]uint64
+	ackInOpen              map[int]uint64
+	endBeforeStop          bool // a stream ended (transiently) after Close() was called and before the stream stop began
 	nondocPos              map[int]uint64
 	inAck                  map[int]bool
 	absorbSys              map[int]map[uint64]bool
@@ -65,6 +67,7 @@ func checkC13(run *Run, res *Result) {
 	stopN := map[int]int{}         // member -> event number of its last BeforeStreamStop
 	fileAfterStop := map[int]int{} // member -> the checkpoint file was rewritten after the stream had been stopped
 	streamClosedWindow := map[int]bool{}
+	opening := map[int]bool{}
 	bound := cfg.CkptTimeout + 75_000_000_000
 	if cfg.Version[0] < 5 || cfg.Version[0] == 5 && cfg.Version[1] < 5 {
 		bound += int64(cfg.NVb) * 60_000_000_000
@@ -93,7 +96,11 @@ func checkC13(run *Run, res *Result) {
 				stopN[e.M] = e.N
 			case "AfterStreamStop":
 				streamClosedWindow[e.M] = true
+			case "AfterStreamStart":
+				opening[e.M] = false
 			case "BeforeStreamStart":
+				opening[e.M] = true
+				get(e.M).ackInOpen = nil
 				streamClosedWindow[e.M] = false
 				// a new session starts from the store: what earlier sessions acknowledged is not this shutdown's to save
 				get(e.M).ackPos, get(e.M).nondocPos = map[int]uint64{}, map[int]uint64{}
@@ -126,6 +133,9 @@ func checkC13(run *Run, res *Result) {
 				continue
 			}
 			if e.S == "end" {
+				if mm.closeN > 0 && stopN[e.M] < mm.closeN && e.I != 0 && e.I != 1 {
+					mm.endBeforeStop = true // Close() was called, dcp.close() has not reached stream.Close() yet
+				}
 				delete(mm.openStreams, e.Vb)
 			} else if e.S == "seqadv" || strings.HasPrefix(e.S, "sys:") {
 				mm.absorbSys[e.Vb][e.Seq] = true
@@ -154,6 +164,12 @@ func checkC13(run *Run, res *Result) {
 			if mm.inAck[e.Vb] {
 				if e.Off.Seq > mm.ackPos[e.Vb] {
 					mm.ackPos[e.Vb] = e.Off.Seq
+					if opening[e.M] {
+						if mm.ackInOpen == nil {
+							mm.ackInOpen = map[int]uint64{}
+						}
+						mm.ackInOpen[e.Vb] = e.Off.Seq // accepted while the session's checkpoint load is still running
+					}
 				}
 			} else if mm.absorbSys[e.Vb][e.Off.Seq] {
 				mm.nondocPos[e.Vb] = e.Off.Seq
@@ -243,7 +259,9 @@ func checkC13(run *Run, res *Result) {
 				for _, vb := range vbs {
 					if !have[vb] || stored[vb] < mm.ackPos[vb] {
 						sig := "plain"
-						if fileAfterStop[e.M] > 0 {
+						if mm.ackInOpen[vb] == mm.ackPos[vb] && mm.ackPos[vb] > 0 {
+							sig = "ack-accepted-during-reopen-then-overwritten-by-load"
+						} else if fileAfterStop[e.M] > 0 {
 							sig = "file-rewritten-after-stream-stop"
 						} else if mm.closeInRebalance {
 							sig = "close-during-rebalance-window"
@@ -283,6 +301,8 @@ func checkC13(run *Run, res *Result) {
 				sig = "close-during-rebalance-window"
 			} else if mm.rebalanceAfterShutdown {
 				sig = "rebalance-timer-fired-during-or-after-shutdown"
+			} else if strings.Contains(res.FailStop, "not found on offset map") && strings.Contains(res.FailStop, "reopenStream") && mm.endBeforeStop {
+				sig = "reopen-of-an-ended-stream-ran-into-the-shutdown"
 			}
 			res.violate("C13", "R1-crash-during-shutdown", len(run.Evs), sig, "member %d: the process died after Close() was called (event #%d): %s", m, mm.closeN, res.FailStop)
 			continue
